@@ -3,6 +3,7 @@
 //   result_driver <plan.txt> <out.ndjson>
 // plan:  P <folds> <ngrid> <nsteps>  then nsteps lines:  A <k> <p1> [<p2>] | S <trial> <fold> <value>   each followed by
 //        E <trials> <opt> <vals (trials x folds, -1 = not stored)> <closest (ngrid x (trials + 1))>
+//        Q <folds> <K> <nsteps>: the same with TWO hyper-parameters, the grid point p = (p / K, p % K) of a K x K grid (ngrid = K * K)
 #include "trace.h"
 #include <any>
 #include <fstream>
@@ -32,6 +33,9 @@ int main(int argc, char** argv)
     {
         int64_t folds = 0, ngrid = 0, n = 0;
         in >> folds >> ngrid >> n;
+        const auto     two   = tok == "Q";
+        const auto     K     = two ? ngrid : int64_t{1};
+        const auto     pdims = two ? tensor_size_t{2} : tensor_size_t{1};
         param_spaces_t spaces;
         tensor1d_t     grid(ngrid);
         for (tensor_size_t i = 0; i < ngrid; ++i)
@@ -39,6 +43,24 @@ int main(int argc, char** argv)
             grid(i) = static_cast<scalar_t>(i);
         }
         spaces.emplace_back("p", param_space_t::type::linear, grid);
+        if (two)
+        {
+            spaces.emplace_back("q", param_space_t::type::linear, grid);
+            ngrid = K * K;
+        }
+        // the hyper-parameter values of a grid point
+        const auto point = [&](const int64_t p, tensor1d_map_t row)
+        {
+            if (two)
+            {
+                row(0) = static_cast<scalar_t>(p / K);
+                row(1) = static_cast<scalar_t>(p % K);
+            }
+            else
+            {
+                row(0) = static_cast<scalar_t>(p);
+            }
+        };
         ml::result_t result(spaces, folds);
         for (int64_t k = 0; k < n; ++k, ++steps)
         {
@@ -48,12 +70,12 @@ int main(int argc, char** argv)
             {
                 int64_t m = 0;
                 in >> m;
-                tensor2d_t params(m, 1);
+                tensor2d_t params(m, pdims);
                 for (int64_t i = 0; i < m; ++i)
                 {
                     int64_t p = 0;
                     in >> p;
-                    params(i, 0) = static_cast<scalar_t>(p);
+                    point(p, params.tensor(i));
                 }
                 result.add(params);
             }
@@ -116,8 +138,8 @@ int main(int argc, char** argv)
             {
                 for (int64_t m = 0; m <= trials; ++m)
                 {
-                    tensor1d_t q(1);
-                    q(0) = static_cast<scalar_t>(p);
+                    tensor1d_t q(pdims);
+                    point(p, q.tensor());
                     impl_closest.push_back(result.closest_trial(q, m));
                 }
             }
